@@ -5,6 +5,7 @@ import Qentem.Proofs.TmplRenderSafe
 import Qentem.Proofs.TmplParseVarRaw
 import Qentem.Proofs.TmplLoopVar
 import Qentem.Proofs.TmplParseLoop
+import Qentem.Proofs.TmplParseAll
 import Qentem.Generated.Tmpl
 /-!
 # C01 — rendering any template text with any value is memory-safe and terminates
@@ -22,10 +23,9 @@ Proved here (for every content, every character width — code units are `Nat`):
   `{var:}` / `{raw:}` parse to a well-formed tree, hence parse+render is free of out-of-range accesses.
 * `parse_text`, `render_text`  content without `{` and `<` parses to no tags without a failing read
   and renders to itself for every value.
-Open (statements below, decided run by run through the correspondence / sanitizer streams of
-`checks/c01.py`): `ParseSafe` (the whole tag scanner never fails a checked read, for every
-content), `ParseWF` (what `parse` returns is well-formed; with `render_safe_of_wf` it gives `RenderSafe`),
-`RenderSafe` (rendering what `parse` produced never fails, for every value).
+* `parse_wf`, `render_safe`  the complete safety statement: every content that fits `SizeT`, every
+  value.
+Open: only the totality of the model's fuel (`ParseSafe`, `RenderSafe` as stated below).
 -/
 namespace Qentem.Props.C01
 open Qentem.Tmpl Qentem.Generated.Tmpl Qentem.Expr
@@ -222,18 +222,58 @@ theorem checkLoopVariable_safe (c : List Nat) (varOff : Nat) (chain : List LoopR
     Safe (checkLoopVariable c varOff chain) (fun _ => True) :=
   Qentem.Tmpl.checkLoopVariable_safe c varOff chain hch hstop
 
-/-- Open statement: what `parse` returns is well-formed (`parse_wf`).  Evaluated on every generated
-and malformed template of `checks/c01.py` through the driver op `tplwf`. -/
-def ParseWF : Prop :=
-  ∀ (R : Type) (cfg : ScanCfg R) (c : List Nat) (tags : List (Tag R)),
-    parse cfg c = .ok tags → wf c.length tags = true
+/-- the one side condition the code really has: offsets are `SizeT` = 32 bits (the 16 units of head
+room cover the `start + wordLength` additions of the Finder) -/
+def FitsSizeT (c : List Nat) : Prop := c.length + 16 < 4294967296
 
-/-- Open statement: the tag scanner never fails a checked read (for every content and every
-number reader). -/
+/-- **`parse_wf`, complete.**  For EVERY content that fits `SizeT` — any sequence of code units, all
+seven tag kinds in any nesting and malformation — and every number reader: the tag scanner (Finder,
+attribute scans, `checkLoopVariable`, the expression scanner) makes no out-of-range read, and the
+tag tree it returns is well-formed.  Proved against the code with the repairs 0a7719b / bce4ef4
+(inline-if start ids not truncated, role-aware sub-tag check): without them the statement is false
+(notes/witness-iif-startid.txt).  The general form `Qentem.Tmpl.parse_wf_all` carries the width of
+the start-id fields as a hypothesis (`c.length < 2 ^ bits`), discharged here from T1 (32 bits). -/
+theorem parse_wf {R : Type} (cfg : ScanCfg R) (c : List Nat) (hn : FitsSizeT c) :
+    Safe (parse cfg c) (fun tags => wf c.length tags = true) :=
+  Qentem.Tmpl.parse_wf_all cfg c hn
+    (by have : (2 : Nat) ^ bits_InLineIfTag_TrueTagsStartID = 4294967296 := by decide
+        rw [this]; unfold FitsSizeT at hn; omega)
+    (by have : (2 : Nat) ^ bits_InLineIfTag_FalseTagsStartID = 4294967296 := by decide
+        rw [this]; unfold FitsSizeT at hn; omega)
+
+/-- the former open statement `ParseWF`, now a theorem (with the size condition) -/
+theorem parse_wf_ok {R : Type} (cfg : ScanCfg R) (c : List Nat) (hn : FitsSizeT c) (tags : List (Tag R))
+    (h : parse cfg c = .ok tags) : wf c.length tags = true := by
+  have := parse_wf cfg c hn
+  rw [h] at this
+  exact this
+
+/-- **C01's safety statement, complete**: parsing any content that fits `SizeT` and rendering the
+result with any value, formatter, escape switch, sort and group function makes no out-of-range
+access (content reads, tag-array indexing, loop-item indexing).  (`guardIndexRead`: the repair
+487b090 of `getValue`.) -/
+theorem render_safe {R : Type} [RealLike R] (cx : RCtx R) (hg : cx.guardIndexRead = true)
+    (cfg : ScanCfg R) (hn : FitsSizeT cx.content) (fuel : Nat) :
+    Safe ((parse cfg cx.content).bind (fun tags => renderTop cx tags fuel)) (fun _ => True) := by
+  have hp := parse_wf cfg cx.content hn
+  cases hpe : parse cfg cx.content with
+  | error e => rw [hpe] at hp; exact hp
+  | ok tags =>
+    rw [hpe] at hp
+    exact Qentem.Tmpl.render_safe_of_wf cx hg tags hp fuel
+
+/-- non-vacuity of the side condition -/
+example : FitsSizeT ("{if case=\"1\" true=\"{var:a}\"}{svar:s, {raw:b}}<loop value='v'>{math:{var:v}}".toList.map Char.toNat) := by
+  unfold FitsSizeT; decide
+
+/-- Open statement (model totality, not safety): the tag scanner model never runs out of its fuel
+`2·n + 4` either, i.e. `parse` returns a list.  `parse_wf` shows that the only possible failure is
+that fuel. -/
 def ParseSafe : Prop :=
   ∀ (R : Type) (cfg : ScanCfg R) (c : List Nat), ∃ tags, parse cfg c = .ok tags
 
-/-- Open statement: rendering what the scanner produced never fails (every value, enough fuel). -/
+/-- Open statement (model totality): with enough fuel rendering returns a text.  `render_safe` shows
+that the only possible failure is fuel. -/
 def RenderSafe : Prop :=
   ∀ (R : Type) [RealLike R] (cx : RCtx R) (cfg : ScanCfg R) (tags : List (Tag R)),
     parse cfg cx.content = .ok tags → ∃ fuel out, renderTop cx tags fuel = .ok out
